@@ -7,12 +7,16 @@
 package main
 
 import (
+	"bytes"
 	"context"
 	"crypto/ed25519"
 	"encoding/base64"
+	"encoding/binary"
 	"encoding/hex"
 	"encoding/json"
 	"fmt"
+	"hash/crc32"
+	"math"
 	"math/big"
 	"os"
 	"runtime"
@@ -477,6 +481,18 @@ func runBase(e env, b base, rngOf func(label string, i int) *mon.Rng) {
 		np.Proof.StateInit = ""
 		e.expectAccept("reference-signer/no-state-init", cls, srv, np, b.domain, w.pub, t0, x)
 	}
+	if !b.active {
+		// the same state-init as a foreign serializer may write it: cells carrying their (correct) hashes and depths
+		if roots, _, _, rerr := readB64(w.siB64); rerr == nil && len(roots) == 1 {
+			if si, werr := withHashesB64(roots[0], b.idx%2 == 0, b.idx%4 < 2, nil); werr == nil {
+				hp := clone(rp)
+				hp.Proof.StateInit = si
+				e.expectAccept("reference-signer/state-init-written-with-hashes", cls, srv, hp, b.domain, w.pub, t0, x)
+			} else {
+				e.sink.Violation("harness/with-hashes-writer", map[string]any{"err": werr.Error()})
+			}
+		}
+	}
 	if !good {
 		return
 	}
@@ -590,6 +606,28 @@ func runBase(e env, b base, rngOf func(label string, i int) *mon.Rng) {
 		p.Proof.StateInit = bocB64(msi)
 		rej("state-init-not-hashing-to-address", p, b.domain)
 
+		// the same impersonation with a bag that claims to be the victim's: the attacker's state-init written
+		// "with hashes", the hash stored for its root replaced by the victim's address. What the state-init hashes
+		// to is decided by its content, never by what the bag says about itself.
+		if oroots, _, _, rerr := readB64(other.siB64); rerr == nil && len(oroots) == 1 {
+			for v := 0; v < 4; v++ {
+				si, werr := withHashesB64(oroots[0], v&1 == 1, v&2 == 2, &w.raddr)
+				if werr != nil {
+					e.sink.Violation("harness/with-hashes-writer", map[string]any{"err": werr.Error()})
+					break
+				}
+				imp := refProof(w, other.priv, b.domain, ts, payload, false)
+				imp.Proof.StateInit = si
+				rej("victim-address-with-attackers-state-init-storing-the-victims-hash", imp, b.domain)
+			}
+			// and the victim's own state-init with one data bit changed, still announcing the victim's hash
+			if si, werr := withHashesB64(msi, false, false, &w.raddr); werr == nil {
+				p = clone(rp)
+				p.Proof.StateInit = si
+				rej("changed-state-init-storing-the-original-hash", p, b.domain)
+			}
+		}
+
 		p = clone(rp)
 		p.Proof.StateInit = ""
 		rej("state-init-missing", p, b.domain)
@@ -603,6 +641,13 @@ func runBase(e env, b base, rngOf func(label string, i int) *mon.Rng) {
 	// expiry (60 s margins; the clock is read right before signing)
 	now := time.Now().Unix()
 	rej("proof-expired", refProof(w, w.priv, b.domain, now-b.life-60, payload, true), b.domain)
+	// correctly signed proofs from the far past, down to the ends of the 64-bit field (and where seconds
+	// turned into nanoseconds leave the 64-bit range): all of them are older than any lifetime
+	const wrapNs = 18446744074 // 2^64 ns in seconds, rounded up
+	for _, old := range []int64{0, 1, -1, now - 1<<31, -1 << 31, -1 << 32, -1<<33 - 5, -9223372036, -9223372037, -9223372038, -9300000000, now - wrapNs, now - wrapNs + 1, now - 2*wrapNs, now - 3*wrapNs,
+		-1 << 40, -1 << 48, -1<<62 + 12345, -1 << 62, math.MinInt64 + 1, math.MinInt64, now - int64(rng.Uint64()>>uint(1+rng.Intn(30))) - b.life - 60} {
+		rej("proof-expired/far-past", refProof(w, w.priv, b.domain, old, payload, true), b.domain)
+	}
 	var n8 [8]byte
 	copy(n8[:], rng.Bytes(8))
 	stale := rwallet.ServerPayload(secret, n8, time.Now().Unix()-b.lifePay-60)
@@ -618,6 +663,28 @@ func runBase(e env, b base, rngOf func(label string, i int) *mon.Rng) {
 	for _, bad := range []string{"", payload[:62], payload + "00", payload[:63], "zz" + payload[2:], payload[:32], strings.ToUpper(payload) + " "} {
 		rej("payload-wrong-length-or-bad-hex", refProof(w, w.priv, b.domain, ts, bad, true), b.domain)
 	}
+}
+
+// withHashesB64 writes a state-init the way a foreign serializer may: cells carry their hashes and depths in
+// front of the data ("with hashes" flag, d1 & 0x10) - the root only, or every cell. With forge != nil the hash
+// stored for the root is replaced by *forge: a bag whose stored hash is not the hash of what it contains.
+func withHashesB64(root *cell.Cell, everyCell, crc bool, forge *[32]byte) (string, error) {
+	raw, err := rboc.Write([]*cell.Cell{root}, rboc.Options{CRC: crc, WithHashes: func(i int, c *cell.Cell) bool { return everyCell || c == root }})
+	if err != nil {
+		return "", err
+	}
+	if forge != nil {
+		h := root.Hash()
+		k := bytes.Index(raw, h[:])
+		if k < 0 || bytes.Index(raw[k+1:], h[:]) >= 0 {
+			return "", fmt.Errorf("stored root hash not found exactly once in the bag")
+		}
+		copy(raw[k:], forge[:])
+		if crc {
+			binary.LittleEndian.PutUint32(raw[len(raw)-4:], crc32.Checksum(raw[:len(raw)-4], crc32.MakeTable(crc32.Castagnoli)))
+		}
+	}
+	return base64.StdEncoding.EncodeToString(raw), nil
 }
 
 func readB64(s string) ([]*cell.Cell, []*cell.Cell, *rboc.Header, error) {
@@ -844,7 +911,7 @@ func main() {
 		tier = os.Args[1]
 	}
 	R := mon.Start("C19", tier)
-	R.Rule = "each base = (wallet version, key source: get_public_key answer or state-init, domain, lifetimes, fresh or nearly expired timestamp/payload); a proof by tonconnect.CreateSignedProof (also judged by the reference verifier) and one by the independent reference signer must be accepted with the wallet's key; then one field is changed at a time (rejection matrix incl. signature bit flips, state-init substitutions, expiry at lifetime+60 s, payload forgeries) and must give (false, _, err); bases include wallets whose public key starts with zero byte(s) (for the wallet and for the other party, both key sources), wallets with a non-default sub-wallet number / network id, and timestamp substitutions in every byte of the 64-bit field; one server shared by 16 goroutines must judge every payload and proof as a single-threaded one would; whether a wallet version outside v1r1..v5r1 is a known wallet is taken from ParseStateInit on its genuine state-init; other spellings of the right address (user-friendly form, blanks, upper case) may be accepted or refused; malformed proofs run in child processes under a panic guard; non-trivial = every CheckProof call judged; distinct = (matrix entry, version, key source) classes and distinct accepted proofs"
+	R.Rule = "each base = (wallet version, key source: get_public_key answer or state-init, domain, lifetimes, fresh or nearly expired timestamp/payload); a proof by tonconnect.CreateSignedProof (also judged by the reference verifier) and one by the independent reference signer must be accepted with the wallet's key; then one field is changed at a time (rejection matrix incl. signature bit flips, state-init substitutions, expiry at lifetime+60 s, payload forgeries) and must give (false, _, err); bases include wallets whose public key starts with zero byte(s) (for the wallet and for the other party, both key sources), wallets with a non-default sub-wallet number / network id, and timestamp substitutions in every byte of the 64-bit field; correctly signed proofs with far-past and negative timestamps down to the ends of the 64-bit field must be refused as expired; state-inits written by a foreign serializer with stored hashes must be accepted when the hashes are right and can never make a state-init pass for an address its content does not hash to (stored root hash replaced by the victim's address); one server shared by 16 goroutines must judge every payload and proof as a single-threaded one would; whether a wallet version outside v1r1..v5r1 is a known wallet is taken from ParseStateInit on its genuine state-init; other spellings of the right address (user-friendly form, blanks, upper case) may be accepted or refused; malformed proofs run in child processes under a panic guard; non-trivial = every CheckProof call judged; distinct = (matrix entry, version, key source) classes and distinct accepted proofs"
 	R.Assume("reference ton_proof message and signer in harness/ref/wallet are written from the ton-connect specification; no literal network vector for ton_proof exists in the repository, so a shared misreading of that document would go unnoticed")
 	R.Assume("wallet state-inits and addresses come from the reference wallet model (validated at start-up against real address vectors)")
 	R.Assume("proof timestamps in the future are not part of the statement and are not tested")
